@@ -282,7 +282,17 @@ def run_once(case, env, tmpdir, state, fault, res, buffered=False):
     env.flush_input()
     import termios as _t
 
-    _t.tcsetattr(env.slave, _t.TCSANOW, env.sane_attr)
+    attr0 = list(env.sane_attr)
+    if case.get("tty_mode"):
+        # the program may have put the terminal into another mode before drawing (no echo,
+        # non-canonical): "exactly as before the call" is about that state
+        attr0[6] = list(attr0[6])
+        if "noecho" in case["tty_mode"]:
+            attr0[3] &= ~_t.ECHO
+        if "cbreak" in case["tty_mode"]:
+            attr0[3] &= ~_t.ICANON
+            attr0[6][_t.VMIN], attr0[6][_t.VTIME] = 1, 0
+    _t.tcsetattr(env.slave, _t.TCSANOW, attr0)
     attr_before = env.tcgetattr()
     env.take()
     out = FaultOut(sys.stdout, probe, tty=True, buffered=buffered)
@@ -487,6 +497,7 @@ def gen(rnd, persona):
             cache=rnd.choice([False, True]),
             hide_cursor=rnd.random() < 0.8,
             echo_input=rnd.random() < 0.4,
+            tty_mode=rnd.choice([None, None, "noecho", "noecho+cbreak", "cbreak"]),
         )
     styles = ["block", "block"] + {"kitty": ["kitty", "kitty"], "konsole": ["kitty", "iterm2"], "wezterm": ["iterm2", "iterm2"], "iterm2": ["iterm2", "iterm2"], "other": ["kitty", "iterm2"]}[pers]
     style = rnd.choice(styles)
@@ -510,6 +521,7 @@ def gen(rnd, persona):
         repeat=rnd.choice([1, 2]),
         cached=rnd.choice([True, False]),
         animate=rnd.random() < 0.7,
+        tty_mode=rnd.choice([None, None, None, "noecho", "noecho+cbreak"]),
     )
     if style == "kitty" and rnd.random() < 0.5:
         # large enough for a chunked transmission (more than 4096 base64 characters)
